@@ -793,7 +793,11 @@ func scriptedServerCase(c *vhlib.Ctx) {
 		reserved = r.Bytes(8)
 	}
 	hsHash := skey
-	iaCut := r.PickInt(68, 68, 68, 0, 20, 19, 48, 67, 1)
+	// len(IA): the MSE initial payload may hold any prefix of what the initiator has to say —
+	// nothing, part of the BitTorrent handshake (the rest follows after the crypto handshake),
+	// exactly the handshake (what storrent's client sends), or the handshake plus the first
+	// message(s) or a fragment of one
+	iaCut := r.PickInt(68, 68, 68, 0, 1, 19, 20, 21, 47, 48, 67, 69, 100, 68+1+r.Intn(300), 68+r.Intn(4096))
 	early := r.Bytes(earlyLens[r.Intn(len(earlyLens))])
 	pipelined := false
 	switch mut {
@@ -806,14 +810,11 @@ func scriptedServerCase(c *vhlib.Ctx) {
 		hsHash = skey
 	case 4:
 		tag = "hash-mismatch"
-		if nh > 1 {
-			for _, h := range hashes {
-				if !bytes.Equal(h.First, skey) && len(h.First) == 20 {
-					hsHash = h.First
-				}
+		hsHash = r.Bytes(20) // a torrent the server does not have …
+		for _, h := range hashes {
+			if !bytes.Equal(h.First, skey) && len(h.First) == 20 {
+				hsHash = h.First // … or another one it has
 			}
-		} else {
-			hsHash = r.Bytes(20)
 		}
 	case 5:
 		tag = "trivial-key"
@@ -848,10 +849,12 @@ func scriptedServerCase(c *vhlib.Ctx) {
 	if mut == 8 {
 		hs[1+r.Intn(19)] ^= 0x20
 	}
-	if iaCut > len(hs) {
-		iaCut = len(hs) // a mis-sized hash in the server's table was picked as skey
+	// everything the initiator has to say: the handshake, then `early`; IA is a prefix of it
+	if iaCut > len(hs)+len(early) {
+		early = append(early, r.Bytes(iaCut-len(hs)-len(early))...)
 	}
-	ia := hs[:iaCut]
+	full := append(append([]byte(nil), hs...), early...)
+	ia := full[:iaCut]
 	e0 := append(append([]byte(nil), ya...), r.Bytes(padA)...)
 	if mut == 13 {
 		copy(e0, handshakeBytes(stdReserved, skey, idc)[:19])
@@ -887,7 +890,7 @@ func scriptedServerCase(c *vhlib.Ctx) {
 	}
 	// after the server's answer: the rest of the BitTorrent handshake, then early data
 	if mut != 9 && sel != 0 {
-		tail := append(append([]byte(nil), hs[iaCut:]...), early...)
+		tail := append([]byte(nil), full[iaCut:]...)
 		if sel == 2 {
 			tail = hsnet.Crypt(encA, tail) // encA has been advanced by ClientMsg3
 		}
@@ -911,15 +914,18 @@ func scriptedServerCase(c *vhlib.Ctx) {
 		if tag == "script" && tableOK && p.o&1 != 0 && !o.ok && o.class != "cantNegotiate" {
 			return "interop:sv:honest-mse-client-rejected:" + o.class, fmt.Sprintf("padA=%d padC=%d provide=%d ia=%d options=%d", padA, padC, provide, iaCut, p.o)
 		}
-		// the server checks the info-hash of the BitTorrent handshake against the MSE key
-		if tag == "hash-mismatch" && o.ok {
-			return "mse:infohash-differs-from-skey-accepted", o.sum
+		// the server checks the info-hash of the BitTorrent handshake against the MSE key: whatever
+		// the stream was, an accepted handshake reports the torrent the MSE handshake was keyed
+		// with (exact: compares what the server returned with the skey this client used)
+		if o.ok && !bytes.Equal(o.res.Hash, skey) {
+			return "mse:infohash-differs-from-skey-accepted", fmt.Sprintf("%s skey=%x handshake-hash=%x", o.sum, skey, hsHash)
 		}
-		// independent expectations for the plain success cases
-		if tag == "script" && o.ok {
-			want := append([]byte(nil), early...)
-			if !bytes.Equal(o.delivered, want) || !bytes.Equal(o.res.Id, idc) || !bytes.Equal(o.res.Hash, skey) || o.rc4 != (sel == 2) {
-				return "scripted-peer:sv:wrong-result", fmt.Sprintf("%s want delivered=%s id=%x sel=%d", o.sum, vhlib.Payload(want), idc, sel)
+		// whenever the server accepts: everything the initiator sent after the BitTorrent
+		// handshake — inside IA, behind it, in any cipher mode — reaches the message layer exactly
+		// once and in order (`pipelined` adds bytes of its own, `truncated` cuts the stream)
+		if o.ok && !pipelined && mut != 9 {
+			if !bytes.Equal(o.delivered, early) || !bytes.Equal(o.res.Id, idc) || o.rc4 != (sel == 2) {
+				return "scripted-peer:sv:wrong-result", fmt.Sprintf("%s want delivered=%s id=%x sel=%d len(IA)=%d", o.sum, vhlib.Payload(early), idc, sel, iaCut)
 			}
 		}
 		return "", ""
